@@ -159,6 +159,16 @@ func checkTwinComparison(c *Ctx, rule3, rule4 string, twin *ssa.Function, kBad i
 			c.Check(compared[f], rule3, "twin test covers NetworkRule."+f, written[f], "compared",
 				"the option loaders write this field but the twin test never compares it: a badfilter rule disables rules that differ in this modifier")
 		}
+		// ... and nothing else: a twin is "the same pattern and modifiers", wherever it comes from
+		var extra []string
+		for f := range compared {
+			if _, isMod := written[f]; !isMod {
+				extra = append(extra, f)
+			}
+		}
+		sort.Strings(extra)
+		c.Check(len(extra) == 0, rule3, "twin test compares only the pattern and the modifiers", twin.Pos(), "every compared field is written by the pattern/option loaders",
+			fmt.Sprintf("the twin test also compares %v, which is not part of a rule's pattern or modifiers (e.g. the list id or the rule text): a $badfilter rule then fails to disable its twin from another list", extra))
 	} else {
 		c.Fail(rule3, "anchor:loadOptions", token.NoPos, "unresolved anchor")
 	}
@@ -239,6 +249,7 @@ func runC08(c *Ctx) {
 
 	checkBadfilterFilter(c, filter, twin, kBad)
 	checkTwinComparison(c, "C08.R3", "C08.R4", twin, kBad)
+	checkClientsEqual(c, "C08.R9")
 	if !c.noImports {
 		importRules(c, runC03, map[string]string{"C03.R8": "C08.R6"}, map[string]string{"C08.R6": "the '/*' normalisation acts on the pattern part only, so a rule and its $badfilter twin get equal patterns (shared with C03.R8)"})
 		importRules(c, runC01, map[string]string{"C01.R6": "C08.R8", "C01.R2": "C08.R8"}, map[string]string{"C08.R8": "the twin is indexed like any rule: tables decline only exact duplicates, first accepting table (shared with C01.R2/R6)"})
@@ -408,6 +419,22 @@ func checkBadfilterFilter(c *Ctx, filter, twin *ssa.Function, kBad int64) {
 	if collPhi == nil {
 		c.Fail("C08.R1", shortFn(filter)+": collection holds every badfilter rule of the input", filter.Pos(), "UNDECIDED: no collection of the badfilter rules found (accepted shape: a slice appended in a full scan of the input)")
 	}
+	// once collected, the list stays as it is while the candidates are tested
+	for _, gf := range groupFuncs(c.P, filter) {
+		eachInstr(gf, func(_ *ssa.BasicBlock, in ssa.Instruction) {
+			cl, ok := in.(*ssa.Call)
+			if !ok || cl.Call.StaticCallee() == nil || len(cl.Call.Args) == 0 {
+				return
+			}
+			n := calleeName(cl.Call.StaticCallee())
+			for _, p := range inplaceLib {
+				if strings.HasPrefix(n, p) && collPhi[cl.Call.Args[0]] {
+					c.Fail("C08.R1", shortFn(filter)+": collection holds every badfilter rule of the input", cl.Pos(),
+						n+" changes the collected list of badfilter rules while candidates are being tested: a badfilter rule that has already disabled one rule is no longer applied to later (duplicate) candidates")
+				}
+			}
+		})
+	}
 
 	for _, em := range emits {
 		key := shortFn(filter) + ": emission of a candidate"
@@ -573,4 +600,62 @@ func edgeCondOf(u *U, s *Summary, p, b *ssa.BasicBlock) Ref {
 		}
 	}
 	return rc
+}
+
+// checkClientsEqual: the $client comparison the twin test relies on is the
+// conjunction of element-wise equalities of every list of a client set.
+func checkClientsEqual(c *Ctx, rule string) {
+	c.Rule(rule, "PDT/COV", "client sets are equal iff every one of their lists is equal, element by element", 1)
+	eq := c.P.Method("rules", "clients", "Equal")
+	ct := c.P.Type("rules", "clients")
+	if eq == nil || ct == nil {
+		c.Fail(rule, "anchor:clients.Equal", token.NoPos, "unresolved anchor")
+		return
+	}
+	c.Fn(FuncName(eq))
+	g := NewGate(c.P)
+	g.Inline = inlineOnly()
+	s := g.Eval(eq)
+	u := g.U
+	ps := g.ParamExprs(eq)
+	a, b := ps[0], ps[1]
+	H := u.ToBool(g.RetExpr(s, 0))
+	aNil := u.ToBool(u.Eq(a, u.mk("nil", "", nil)))
+	bNil := u.ToBool(u.Eq(b, u.mk("nil", "", nil)))
+	both := u.bdd.And(u.bdd.Not(aNil), u.bdd.Not(bNil))
+	want := True
+	covered := map[string]bool{}
+	bad := ""
+	for _, at := range u.AtomsOf(u.bdd.And(H, both)) {
+		if u.Atom(at) == aNil || u.Atom(at) == bNil {
+			continue
+		}
+		okCmp := at.Op == "call" && len(at.Args) >= 2 && (strings.HasPrefix(at.Aux, "slices.Equal") || at.Aux == "reflect.DeepEqual")
+		if okCmp {
+			x, y := at.Args[0], at.Args[1]
+			if x.Op == "field" && y.Op == "field" && x.Aux == y.Aux && ((x.Args[0] == a && y.Args[0] == b) || (x.Args[0] == b && y.Args[0] == a)) {
+				covered[x.Aux] = true
+				want = u.bdd.And(want, u.Atom(at))
+				continue
+			}
+		}
+		bad = "client sets are compared by " + clip(u.Show(at), 100) + ", which is not an element-wise equality of the same list of both sets (e.g. comparing lengths makes $client=~guests equal to $client=~kids)"
+	}
+	if bad == "" {
+		for _, f := range structFields(ct) {
+			if !covered[f] {
+				bad = "the list clients." + f + " is never compared: rules that differ only there count as twins"
+			}
+		}
+	}
+	if bad == "" && u.bdd.And(H, both) != u.bdd.And(want, both) {
+		bad = "for two non-nil sets the result is not the conjunction of the list equalities"
+	}
+	if bad == "" {
+		// nil handling: nil equals only nil
+		if u.bdd.And(H, u.bdd.And(aNil, u.bdd.Not(bNil))) != False || u.bdd.And(H, u.bdd.And(u.bdd.Not(aNil), bNil)) != False || u.bdd.And(u.bdd.And(aNil, bNil), u.bdd.Not(H)) != False {
+			bad = "a nil client set is not equal exactly to a nil one"
+		}
+	}
+	c.Check(bad == "", rule, shortFn(eq)+": conjunction of element-wise list equalities", eq.Pos(), "every field of the set compared with slices.Equal", bad)
 }
